@@ -69,7 +69,8 @@ Record srec := {
 
 Inductive event := Enter (Sc : srec) | Exit.
 
-(* ------------------------------------------------------------------ store *)
+(* ------------------------------------------------------------------ store
+   one store per class of dictionary: a table id of one class never denotes a table of another *)
 Definition store := list (nat * table).
 Fixpoint st_get (i : nat) (st : store) : table :=
   match st with
@@ -81,14 +82,17 @@ Fixpoint st_set (i : nat) (t : table) (st : store) : store :=
   | [] => [(i, t)]
   | (j, t') :: st' => if Nat.eqb i j then (i, t) :: st' else (j, t') :: st_set i t st'
   end.
-Definition st_upd (i : nat) (f : table -> table) (st : store) : store := st_set i (f (st_get i st)) st.
 Definition update (t : table) (l : list (str * ent)) : table :=
   fold_left (fun t kv => assoc_set (fst kv) (snd kv) t) l t.
+Record stores := { sp : store; sa : store; sy : store }.   (* procedures, abstract interfaces, types *)
+Definition store_of (ss : stores) (c : cls) : store :=
+  match c with CProc => sp ss | CAbs => sa ss | CType => sy ss end.
 
 (* the table ids of a scope, by class *)
 Record env := { e_scope : srec; e_procs : nat; e_abs : nat; e_types : nat }.
 Definition tid (E : env) (c : cls) : nat :=
   match c with CProc => e_procs E | CAbs => e_abs E | CType => e_types E end.
+Definition tab (ss : stores) (E : env) (c : cls) : table := st_get (tid E c) (store_of ss c).
 
 (* ------------------------------------------------------------------ slots *)
 Inductive sdesc :=
@@ -100,97 +104,111 @@ Inductive sdesc :=
   | SFinal (t : str) (i : nat)           (* procedure of the i-th final *)
   | SCtor (t : str)                      (* constructor *)
   | SModproc (g : str) (i : nat).        (* procedure of the i-th module procedure of a generic *)
-(* a resolved (or not) reference: where, which name was looked up, the entity found *)
-(* which dictionaries the lookup goes through *)
+(* which dictionaries a lookup goes through: all_types; all_procs; all_procs then all_absinterfaces *)
 Inductive look := LType | LProc | LProcAbs.
+(* a reference to be resolved: where, which slot, how, which name *)
+Record req := { q_scope : list str; q_slot : sdesc; q_look : look; q_name : str }.
+(* a resolved (or not) reference: the entity found, None = the name stays a string *)
 Record res := { r_scope : list str; r_slot : sdesc; r_look : look; r_name : str; r_ent : option ent }.
+Definition resolver := look -> str -> option ent.
+Definition answer (R : resolver) (q : req) : res :=
+  {| r_scope := q_scope q; r_slot := q_slot q; r_look := q_look q; r_name := q_name q;
+     r_ent := R (q_look q) (q_name q) |}.
 
-Definition lookup_proc_then_abs (st : store) (E : env) (n : str) : option ent :=
-  match assoc_get n (st_get (e_procs E) st) with
-  | Some e => Some e
-  | None => assoc_get n (st_get (e_abs E) st)
-  end.
-Definition resolve_tyref (st : store) (E : env) (r : tyref) : str * option ent :=
-  match r with
-  | TRType n => (n, assoc_get n (st_get (e_types E) st))
-  | TRProc n => (n, lookup_proc_then_abs st E n)
-  end.
-Definition var_slots (st : store) (E : env) (mk : str -> sdesc) (vs : list var) : list res :=
-  flat_map (fun v => match v_ref v with
-                     | Some r => let ne := resolve_tyref st E r in
-                                 [{| r_scope := s_path (e_scope E); r_slot := mk (v_name v);
-                                     r_look := (match r with TRType _ => LType | TRProc _ => LProcAbs end); r_name := fst ne; r_ent := snd ne |}]
-                     | None => []
-                     end) vs.
 Fixpoint indexed {A} (i : nat) (l : list A) : list (nat * A) :=
   match l with [] => [] | x :: l' => (i, x) :: indexed (S i) l' end.
-
-Definition type_slots (st : store) (E : env) (T : dtype) : list res :=
-  let P := s_path (e_scope E) in
-  let procs := st_get (e_procs E) st in
+Definition var_reqs (P : list str) (mk : str -> sdesc) (vs : list var) : list req :=
+  flat_map (fun v => match v_ref v with
+                     | Some (TRType n) => [{| q_scope := P; q_slot := mk (v_name v); q_look := LType; q_name := n |}]
+                     | Some (TRProc n) => [{| q_scope := P; q_slot := mk (v_name v); q_look := LProcAbs; q_name := n |}]
+                     | None => []
+                     end) vs.
+Definition type_reqs (P : list str) (T : dtype) : list req :=
   (match t_extends T with
-   | Some n => [{| r_scope := P; r_slot := SExtends (t_name T); r_look := LType; r_name := n;
-                   r_ent := assoc_get n (st_get (e_types E) st) |}]
+   | Some n => [{| q_scope := P; q_slot := SExtends (t_name T); q_look := LType; q_name := n |}]
    | None => []
    end)
-  ++ var_slots st E (SComp (t_name T)) (t_comps T)
+  ++ var_reqs P (SComp (t_name T)) (t_comps T)
   ++ flat_map (fun b =>
        (match b_proto b with
-        | Some n => [{| r_scope := P; r_slot := SBindProto (t_name T) (b_name b); r_look := LProcAbs; r_name := n;
-                        r_ent := lookup_proc_then_abs st E n |}]
+        | Some n => [{| q_scope := P; q_slot := SBindProto (t_name T) (b_name b); q_look := LProcAbs; q_name := n |}]
         | None => []
         end)
        ++ (if b_deferred b then []
-           else map (fun it => {| r_scope := P; r_slot := SBindTarget (t_name T) (b_name b) (fst it);
-                                  r_look := LProc; r_name := snd it; r_ent := assoc_get (snd it) procs |})
-                    (indexed 0 (b_targets b)))) (t_binds T)
-  ++ map (fun it => {| r_scope := P; r_slot := SFinal (t_name T) (fst it); r_look := LProc; r_name := snd it;
-                       r_ent := assoc_get (snd it) procs |}) (indexed 0 (t_finals T))
-  ++ [{| r_scope := P; r_slot := SCtor (t_name T); r_look := LProc; r_name := t_name T;
-         r_ent := assoc_get (t_name T) procs |}].
-Definition generic_slots (st : store) (E : env) (G : generic) : list res :=
-  map (fun it => {| r_scope := s_path (e_scope E); r_slot := SModproc (g_name G) (fst it); r_look := LProc; r_name := snd it;
-                    r_ent := assoc_get (snd it) (st_get (e_procs E) st) |}) (indexed 0 (g_modprocs G)).
+           else map (fun it => {| q_scope := P; q_slot := SBindTarget (t_name T) (b_name b) (fst it);
+                                  q_look := LProc; q_name := snd it |}) (indexed 0 (b_targets b)))) (t_binds T)
+  ++ map (fun it => {| q_scope := P; q_slot := SFinal (t_name T) (fst it); q_look := LProc; q_name := snd it |})
+         (indexed 0 (t_finals T))
+  ++ [{| q_scope := P; q_slot := SCtor (t_name T); q_look := LProc; q_name := t_name T |}].
+Definition generic_reqs (P : list str) (G : generic) : list req :=
+  map (fun it => {| q_scope := P; q_slot := SModproc (g_name G) (fst it); q_look := LProc; q_name := snd it |})
+      (indexed 0 (g_modprocs G)).
+(* resolved when the scope is set up (derived types are correlated before the contained
+   procedures; the generic interfaces only read all_procs, which no later step changes) *)
+Definition enter_reqs (Sc : srec) : list req :=
+  flat_map (type_reqs (s_path Sc)) (s_types Sc) ++ flat_map (generic_reqs (s_path Sc)) (s_generics Sc).
+(* resolved after the contained procedures and interface bodies have been correlated *)
+Definition exit_reqs (Sc : srec) : list req := var_reqs (s_path Sc) SVar (s_vars Sc).
+
+Definition model_resolver (ss : stores) (E : env) : resolver :=
+  fun lk n =>
+  match lk with
+  | LType => assoc_get n (tab ss E CType)
+  | LProc => assoc_get n (tab ss E CProc)
+  | LProcAbs => match assoc_get n (tab ss E CProc) with
+                | Some e => Some e
+                | None => assoc_get n (tab ss E CAbs)
+                end
+  end.
 
 (* ------------------------------------------------------------------ traversal *)
-Record state := { st_store : store; st_next : nat; st_stack : list env; st_out : list res }.
-Definition init_state : state := {| st_store := []; st_next := 0; st_stack := []; st_out := [] |}.
+Record state := { st_stores : stores; st_next : nat; st_stack : list env; st_out : list res }.
+Definition init_state : state :=
+  {| st_stores := {| sp := []; sa := []; sy := [] |}; st_next := 0; st_stack := []; st_out := [] |}.
 
 Definition own (Sc : srec) (names : list str) : list (str * ent) :=
   map (fun n => (n, s_path Sc ++ [n])) names.
 Definition imports_of (Sc : srec) (c : cls) : list (str * ent) :=
   map snd (filter (fun i => cls_eqb (fst i) c) (s_imports Sc)).
+Definition own_names (Sc : srec) (c : cls) : list str :=
+  match c with
+  | CProc => s_procs Sc
+  | CAbs => s_abs Sc
+  | CType => map t_name (s_types Sc)
+  end.
 
+Definition parent_env (Sc : srec) (stack : list env) : option env :=
+  match s_kind Sc, stack with
+  | KUnit, _ => None
+  | _, E :: _ => Some E
+  | _, [] => None
+  end.
 Definition enter_scope (Sc : srec) (s : state) : state :=
-  let st := st_store s in
+  let ss := st_stores s in
   let n := st_next s in
-  let parent := match s_kind Sc, st_stack s with
-                | KUnit, _ => None
-                | _, E :: _ => Some E
-                | _, [] => None
-                end in
-  (* all_procs: own contained procedures, then .update(parent.all_procs): the parent's entries win *)
-  let ip := n in
-  let procs0 := update [] (own Sc (s_procs Sc)) in
-  let procs1 := match parent with Some E => update procs0 (st_get (e_procs E) st) | None => procs0 end in
-  (* all_absinterfaces / all_types: the parent's dictionary object when it has one *)
-  let ia := match parent with Some E => e_abs E | None => n + 1 end in
-  let it := match parent with Some E => e_types E | None => n + 2 end in
-  (* own declarations are written into these (possibly shared) dictionaries; names from USED
-     modules are merged last *)
-  let st1 := st_set ip (update procs1 (imports_of Sc CProc)) st in
-  let st2 := st_upd ia (fun t => update (update t (own Sc (s_abs Sc))) (imports_of Sc CAbs)) st1 in
-  let st3 := st_upd it (fun t => update (update t (own Sc (map t_name (s_types Sc)))) (imports_of Sc CType)) st2 in
-  let E := {| e_scope := Sc; e_procs := ip; e_abs := ia; e_types := it |} in
-  {| st_store := st3; st_next := n + 3; st_stack := E :: st_stack s;
-     st_out := st_out s ++ flat_map (type_slots st3 E) (s_types Sc) ++ flat_map (generic_slots st3 E) (s_generics Sc) |}.
+  let parent := parent_env Sc (st_stack s) in
+  (* all_procs: a dictionary of its own; own contained procedures, then .update(parent.all_procs):
+     the parent's entries win; names from USED modules are merged last *)
+  let procs0 := update [] (own Sc (own_names Sc CProc)) in
+  let procs1 := match parent with Some E => update procs0 (tab ss E CProc) | None => procs0 end in
+  let procs2 := update procs1 (imports_of Sc CProc) in
+  (* all_absinterfaces / all_types: the parent's dictionary object when there is one; own
+     declarations are written into it, then the names from USED modules *)
+  let ia := match parent with Some E => e_abs E | None => n end in
+  let it := match parent with Some E => e_types E | None => n end in
+  let abs2 := update (update (st_get ia (sa ss)) (own Sc (own_names Sc CAbs))) (imports_of Sc CAbs) in
+  let types2 := update (update (st_get it (sy ss)) (own Sc (own_names Sc CType))) (imports_of Sc CType) in
+  let ss' := {| sp := st_set n procs2 (sp ss); sa := st_set ia abs2 (sa ss); sy := st_set it types2 (sy ss) |} in
+  let E := {| e_scope := Sc; e_procs := n; e_abs := ia; e_types := it |} in
+  {| st_stores := ss'; st_next := S n; st_stack := E :: st_stack s;
+     st_out := st_out s ++ map (answer (model_resolver ss' E)) (enter_reqs Sc) |}.
 
 Definition exit_scope (s : state) : state :=
   match st_stack s with
   | [] => s
   | E :: rest =>
-    {| st_store := st_store s; st_next := st_next s; st_stack := rest;
-       st_out := st_out s ++ var_slots (st_store s) E SVar (s_vars (e_scope E)) |}
+    {| st_stores := st_stores s; st_next := st_next s; st_stack := rest;
+       st_out := st_out s ++ map (answer (model_resolver (st_stores s) E)) (exit_reqs (e_scope E)) |}
   end.
 Definition step (s : state) (ev : event) : state :=
   match ev with Enter Sc => enter_scope Sc s | Exit => exit_scope s end.
@@ -209,18 +227,6 @@ Fixpoint find_unit (units : list str) (n : str) : option str :=
    an identifier; nothing declared in a sibling or a contained scoping unit is visible. *)
 Definition scopes_of (evs : list event) : list srec :=
   flat_map (fun ev => match ev with Enter Sc => [Sc] | Exit => [] end) evs.
-Fixpoint prefix_b (a b : list str) : bool :=
-  match a, b with
-  | [], _ => true
-  | x :: a', y :: b' => str_eqb x y && prefix_b a' b'
-  | _ :: _, [] => false
-  end.
-Definition own_names (Sc : srec) (c : cls) : list str :=
-  match c with
-  | CProc => s_procs Sc
-  | CAbs => s_abs Sc
-  | CType => map t_name (s_types Sc)
-  end.
 (* the identifiers of class c a scope has itself: own declarations, then use-associated names *)
 Definition local_lookup (Sc : srec) (c : cls) (n : str) : option ent :=
   if str_in n (own_names Sc c) then Some (s_path Sc ++ [n])
@@ -228,62 +234,82 @@ Definition local_lookup (Sc : srec) (c : cls) (n : str) : option ent :=
 Definition find_scope (all : list srec) (p : list str) : option srec :=
   find (fun Sc => list_eqb str_eqb (s_path Sc) p) all.
 (* look in the scope with path p, then in its host (path without the last name), and so on *)
-Fixpoint resolve_fuel (fuel : nat) (all : list srec) (p : list str) (look : srec -> option ent) : option ent :=
+Fixpoint resolve_fuel (fuel : nat) (all : list srec) (p : list str) (lookf : srec -> option ent) : option ent :=
   match fuel with
   | 0 => None
   | S f =>
-    match (match find_scope all p with Some Sc => look Sc | None => None end) with
+    match (match find_scope all p with Some Sc => lookf Sc | None => None end) with
     | Some e => Some e
-    | None => match p with [] => None | _ :: _ => resolve_fuel f all (removelast p) look end
+    | None => match p with [] => None | _ :: _ => resolve_fuel f all (removelast p) lookf end
     end
   end.
-Definition resolve_in (all : list srec) (p : list str) (c : cls) (n : str) : option ent :=
-  resolve_fuel (S (length p)) all p (fun Sc => local_lookup Sc c n).
 (* procedure(n): n is a procedure with an explicit interface or an abstract interface; one
    identifier, so the innermost scope that has n in either role decides *)
-Definition resolve_proc_or_abs (all : list srec) (p : list str) (n : str) : option ent :=
-  resolve_fuel (S (length p)) all p
-    (fun Sc => match local_lookup Sc CProc n with Some e => Some e | None => local_lookup Sc CAbs n end).
-Definition spec_tyref (all : list srec) (p : list str) (r : tyref) : option ent :=
-  match r with
-  | TRType n => resolve_in all p CType n
-  | TRProc n => resolve_proc_or_abs all p n
+Definition look_in (Sc : srec) (lk : look) (n : str) : option ent :=
+  match lk with
+  | LType => local_lookup Sc CType n
+  | LProc => local_lookup Sc CProc n
+  | LProcAbs => match local_lookup Sc CProc n with Some e => Some e | None => local_lookup Sc CAbs n end
   end.
+Definition spec_resolver (all : list srec) (p : list str) : resolver :=
+  fun lk n => resolve_fuel (S (length p)) all p (fun Sc => look_in Sc lk n).
+Definition resolve_in (all : list srec) (p : list str) (c : cls) (n : str) : option ent :=
+  spec_resolver all p (match c with CType => LType | _ => LProc end) n.
 
-(* the Spec's answer for every slot of a unit, keyed like the model's output *)
-Definition spec_var_slots (all : list srec) (Sc : srec) (mk : str -> sdesc) (vs : list var) : list res :=
-  flat_map (fun v => match v_ref v with
-                     | Some r => [{| r_scope := s_path Sc; r_slot := mk (v_name v);
-                                     r_look := (match r with TRType _ => LType | TRProc _ => LProcAbs end); r_name := match r with TRType n => n | TRProc n => n end;
-                                     r_ent := spec_tyref all (s_path Sc) r |}]
-                     | None => []
-                     end) vs.
-Definition spec_type_slots (all : list srec) (Sc : srec) (T : dtype) : list res :=
-  let P := s_path Sc in
-  (match t_extends T with
-   | Some n => [{| r_scope := P; r_slot := SExtends (t_name T); r_look := LType; r_name := n; r_ent := resolve_in all P CType n |}]
-   | None => []
-   end)
-  ++ spec_var_slots all Sc (SComp (t_name T)) (t_comps T)
-  ++ flat_map (fun b =>
-       (match b_proto b with
-        | Some n => [{| r_scope := P; r_slot := SBindProto (t_name T) (b_name b); r_look := LProcAbs; r_name := n;
-                        r_ent := resolve_proc_or_abs all P n |}]
-        | None => []
-        end)
-       ++ (if b_deferred b then []
-           else map (fun it => {| r_scope := P; r_slot := SBindTarget (t_name T) (b_name b) (fst it);
-                                  r_look := LProc; r_name := snd it; r_ent := resolve_in all P CProc (snd it) |})
-                    (indexed 0 (b_targets b)))) (t_binds T)
-  ++ map (fun it => {| r_scope := P; r_slot := SFinal (t_name T) (fst it); r_look := LProc; r_name := snd it;
-                       r_ent := resolve_in all P CProc (snd it) |}) (indexed 0 (t_finals T))
-  ++ [{| r_scope := P; r_slot := SCtor (t_name T); r_look := LProc; r_name := t_name T;
-         r_ent := resolve_in all P CProc (t_name T) |}].
-Definition spec_generic_slots (all : list srec) (Sc : srec) (G : generic) : list res :=
-  map (fun it => {| r_scope := s_path Sc; r_slot := SModproc (g_name G) (fst it); r_look := LProc; r_name := snd it;
-                    r_ent := resolve_in all (s_path Sc) CProc (snd it) |}) (indexed 0 (g_modprocs G)).
-Definition spec_scope_slots (all : list srec) (Sc : srec) : list res :=
-  flat_map (spec_type_slots all Sc) (s_types Sc) ++ flat_map (spec_generic_slots all Sc) (s_generics Sc)
-  ++ spec_var_slots all Sc SVar (s_vars Sc).
+(* the Spec's answer for every slot of a unit *)
 Definition spec (evs : list event) : list res :=
-  flat_map (spec_scope_slots (scopes_of evs)) (scopes_of evs).
+  let all := scopes_of evs in
+  flat_map (fun Sc => map (answer (spec_resolver all (s_path Sc))) (enter_reqs Sc ++ exit_reqs Sc)) all.
+
+(* ------------------------------------------------------------------ well-formed input, regions *)
+(* events are well bracketed; a unit is entered on an empty stack, every other scope inside its
+   host, its path being the host's path plus one name; paths are pairwise different *)
+Fixpoint wf_ev (stack : list (list str)) (evs : list event) : bool :=
+  match evs with
+  | [] => match stack with [] => true | _ => false end
+  | Enter Sc :: evs' =>
+    (match stack, s_kind Sc with
+     | [], KUnit => Nat.eqb (length (s_path Sc)) 1
+     | p :: _, KProc | p :: _, KBody =>
+       list_eqb str_eqb (removelast (s_path Sc)) p && negb (Nat.eqb (length (s_path Sc)) 0)
+     | _, _ => false
+     end) && wf_ev (s_path Sc :: stack) evs'
+  | Exit :: evs' => match stack with [] => false | _ :: st => wf_ev st evs' end
+  end.
+Fixpoint nodup_paths (l : list (list str)) : bool :=
+  match l with
+  | [] => true
+  | p :: l' => negb (existsb (list_eqb str_eqb p) l') && nodup_paths l'
+  end.
+Definition wf_events (evs : list event) : bool :=
+  wf_ev [] evs && nodup_paths (map s_path (scopes_of evs)).
+
+(* every declaration and use-associated name of class c in the unit *)
+Definition all_decls (c : cls) (all : list srec) : list (str * ent) :=
+  flat_map (fun Sc => own Sc (own_names Sc c) ++ imports_of Sc c) all.
+Fixpoint functional_b (l : list (str * ent)) : bool :=
+  match l with
+  | [] => true
+  | (n, e) :: l' => forallb (fun kv => negb (str_eqb (fst kv) n) || ent_eqb (snd kv) e) l' && functional_b l'
+  end.
+(* an identifier denotes one entity in the whole unit: as a type; as a procedure or abstract interface *)
+Definition names_unique_per_root (evs : list event) : bool :=
+  let all := scopes_of evs in
+  functional_b (all_decls CType all) && functional_b (all_decls CAbs all ++ all_decls CProc all).
+Definition declared_b (all : list srec) (lk : look) (n : str) : bool :=
+  match lk with
+  | LType => str_in n (map fst (all_decls CType all))
+  | LProc => str_in n (map fst (all_decls CProc all))
+  | LProcAbs => str_in n (map fst (all_decls CProc all)) || str_in n (map fst (all_decls CAbs all))
+  end.
+(* every referenced name is visible from where it is referenced, or declared nowhere in the unit *)
+Definition refs_visible_or_undeclared (evs : list event) : bool :=
+  let all := scopes_of evs in
+  forallb (fun Sc => forallb (fun q => match spec_resolver all (s_path Sc) (q_look q) (q_name q) with
+                                       | Some _ => true
+                                       | None => negb (declared_b all (q_look q) (q_name q))
+                                       end) (enter_reqs Sc ++ exit_reqs Sc)) all.
+(* the name is not declared or use-associated anywhere in the unit, in any role *)
+Definition mentioned (evs : list event) (n : str) : bool :=
+  let all := scopes_of evs in
+  str_in n (map fst (all_decls CType all ++ all_decls CProc all ++ all_decls CAbs all)).
